@@ -342,6 +342,10 @@ for n in ["u31_data_flushed_before_logs_are_reclaimed", "u31_clean_all_logs_flus
                             bound="one column; Column::flush, Log::{num_dirty_logs,clean_logs} by contract"))
 M_DB.harnesses.append(H("u33_shutdown_drains_every_stage_in_order", "U33", kind="bounded", shape="DbInner::kill_logs with up to 2 commits in each of the three stages",
                         bound="<= 2 items per stage; DbInner::{process_commits,flush_logs,enact_logs,clean_all_logs} and Log::kill_logs by contract over ghost counters"))
+for n, sh in [("u34_first_background_error_is_kept_and_stops_the_workers", "DbInner::store_err twice (first outcome arbitrary)"),
+              ("u34_commit_refused_in_background_error_state_leaves_no_trace", "DbInner::commit_raw of an empty transaction with and without a recorded background error"),
+              ("u34_shutdown_after_background_error_applies_nothing", "DbInner::kill_logs with a recorded background error and up to 2 commits per stage")]:
+    M_DB.harnesses.append(H(n, "U34", kind="bounded", shape=sh, bound="one column, empty transaction / <= 2 items per stage; stage functions by contract"))
 for n in ["u29_get_searches_current_then_every_queued_index", "u29_get_size_is_the_length_of_the_value"]:
     M_COLUMN.harnesses.append(H(n, "U29", kind="bounded", shape="HashColumn::%s with an 18-bit current index and two queued older indexes; get_in_index by contract" % ("get_size" if "size" in n else "get"),
                                 bound="two queued old indexes; HashColumn::get_in_index by contract (U13)"))
@@ -512,6 +516,8 @@ UNIT_META = {
     "U23": {"functions": ["btree::btree::BTree::write_sorted_changes"], "assumes": ["Node::change / need_remove_root / BTree::fetch_root / BTreeTable::write_node_plan / write_plan_remove_node replaced by contracts (scripted outcomes)"]},
     "U24": {"functions": ["db::Operation::{cmp,partial_cmp,key}"], "assumes": []},
     "U32": {"functions": ["log::Log::flush_one"], "assumes": ["std::fs::File::sync_data replaced by its contract (recorder)", "the File is a raw descriptor never used for I/O; the write buffer is empty (BufWriter::into_inner performs no write)", "only the successful-sync path is exercised"]},
+    "U34": {"functions": ["db::DbInner::store_err", "db::DbInner::commit_raw (background-error gate)", "db::DbInner::kill_logs (background-error path)"],
+            "assumes": ["commit_raw is exercised with an empty transaction (non-empty std HashMaps cannot be built under CBMC)", "stage functions of kill_logs by contract (as U33)"]},
     "U31": {"functions": ["db::DbInner::{clean_logs,clean_all_logs}"], "assumes": ["Column::flush (msync / fsync of every table of the column), Log::num_dirty_logs and Log::clean_logs (truncate and recycle log files) replaced by contracts (recorders)"]},
     "U33": {"functions": ["db::DbInner::kill_logs"], "assumes": ["DbInner::{process_commits,flush_logs,enact_logs,clean_all_logs} and Log::kill_logs replaced by contracts over ghost stage counters: process_commits moves one queued commit into the appending log, flush_logs makes the appending log readable, enact_logs applies one readable record, each reporting whether it did anything"]},
     "U29": {"functions": ["column::HashColumn::{get,get_size}"], "assumes": ["HashColumn::get_in_index replaced by its contract (proved against its own callees by Verus, unit lookup_chain)"]},
@@ -664,3 +670,16 @@ PROPS["C12"].update({
     "level_note": "std::fs::File::sync_data, Column::flush, Log::num_dirty_logs and Log::clean_logs are contracts (recorders). The failing-sync path of flush_one drops a File (close(2) is not modelled by Kani) and is not exercised. That records are applied only from the read queue is the structure of Log::read_next (not under contract). The durable-image semantics of the property are outside this family (no file-system model).",
     "does_not_cover": ["power-loss semantics (arbitrary subset of unsynced pages)", "Log::flush_one when the sync fails", "Log::clean_logs body (rewind, set_len, sync_all, pool)", "Log::read_next (records are applied only from synced files)", "log reuse across restart / recovery"],
 })
+
+PROPS["C16"] = {
+    "kani_units": ["U34"],
+    "verus_units": [],
+    "level": "other",
+    "technique": "Kani/CBMC contracts on the real background-error functions of DbInner (store_err, the gate of commit_raw, the error path of kill_logs), stage functions replaced by contracts",
+    "claim": "Only the 'later commits are refused with a background-error' and 'the writer stops' clauses, function by function: store_err records the first failure of a background worker, keeps it when further failures arrive, and raises the shutdown flag that stops every worker; commit_raw called in that state returns the background error without taking a commit id, queueing or publishing anything; kill_logs in that state applies no further record and logs no queued commit, and keeps the log files for recovery. Which file operations can fail, that every failure reaches store_err, that reads keep working and that reopening yields a prefix are not decided.",
+    "level_note": "Bounded harnesses on a real DbInner value with one column; commit_raw is exercised with an empty transaction only; the stage functions of kill_logs are contracts over ghost counters. Fault injection over file operations has no counterpart in this family (no I/O model).",
+    "trusted_base": TB,
+    "explanation": "Three bounded modular harnesses; level 'other' because only the error-state gate is decided, not the fault behaviour of the I/O paths.",
+    "does_not_cover": ["which operations fail and that each failure is propagated to store_err (error paths through `?`)", "reads after a failure", "state after reopen (prefix of commits)", "no panic on I/O errors"],
+}
+PROPS["C08"]["kani_units"] = ["U34"]
